@@ -141,7 +141,7 @@ def _focus_sources():
                 out.append(("f2003", "spec", [text]))
         for text in zoo.SPEC_F08:
             out.append(("f2008", "spec", [text]))
-        for grp in zoo.SPEC_GROUPS:
+        for grp in zoo.SPEC_GROUPS + zoo.USE_GROUPS:
             out.append(("f2003", "spec", list(grp)))
         for text in zoo.EXEC:
             out.append(("f2003", "exec", [text]))
